@@ -373,9 +373,14 @@ def run_batch(prop, progs, feat, release, rep, stats, budget_search):
                     stats["events"][e[0]] = stats["events"].get(e[0], 0) + 1
                 if o["ret"] == "panic":
                     stats["panics_caught"] += 1
-        hits = corr.oracle_hits(il) + corr.policy_hits(l, il)
+        hits, seen_h = [], set()
+        for x in corr.oracle_hits(il) + corr.policy_hits(l, il):
+            # one hit per (operation, oracle): a corrupted buffer can make one walk report the same thing 100 000 times
+            if (x[0], x[1]) not in seen_h:
+                seen_h.add((x[0], x[1]))
+                hits.append(x)
         rel = [x for x in hits if prop in corr.ORACLE_PROPS.get(x[1], [])]
-        other = [x for x in hits if x not in rel]
+        other = [x for x in hits if prop not in corr.ORACLE_PROPS.get(x[1], [])]
         for x in other:
             stats["other_oracle_hits"][x[1]] = stats["other_oracle_hits"].get(x[1], 0) + 1
         d_prop = corr.compare(ml, il, proj)
@@ -677,6 +682,21 @@ def words_probe(prop, tier, seed, rep, vals_line):
             if (nw, failed) != exp or nw // M != mk:
                 bad.append(line)
         elif op in ("sf1", "sf0", "sm1", "sm0"):
+            w, nw = int(t[1]), int(t[2])
+            if nw % M != w % M:
+                bad.append(line)
+        elif op == "gt":
+            # the reserved tracing-counter value, and only it, means "dropped"; the getters change nothing
+            w, nw = int(t[1]), int(t[2])
+            if nw != w or (t[6] == "1") != (w % M == M - 1):
+                bad.append(line)
+        elif op == "rt":
+            # resetting the tracing counter keeps the mark
+            w, nw = int(t[1]), int(t[2])
+            if nw % M != 0 or nw // M != w // M:
+                bad.append(line)
+        elif op in ("m0", "m1", "m2", "m3"):
+            # marking keeps the tracing counter
             w, nw = int(t[1]), int(t[2])
             if nw % M != w % M:
                 bad.append(line)
@@ -1091,13 +1111,14 @@ def lists_probe(prop, tier, seed, rep, vals_line=None):
         c, k, e, g = min(wrong, key=lambda w: len(w[0].split()))
         toks = c.split()
         try:
-            prefixes = [" ".join(toks[:j]) for j in range(2, len(toks) + 1)]
-            r = deviates(prefixes)
-            j = next((j for j, x in enumerate(r) if x[0]), len(prefixes) - 1)
-            cur = prefixes[j].split()
-            e, g = r[j][1], r[j][2]
-            changed = True
-            while changed and len(cur) > 2:
+            # the first deviating operation is known: the prefix up to it is the shortest deviating prefix
+            cur = toks[:k + 2]
+            r = deviates([" ".join(cur)])
+            if r and r[0][0]:
+                e, g = r[0][1], r[0][2]
+            changed = len(cur) <= 80       # single-operation deletions are quadratic: only for short cases
+            t_dead = time.time() + 45      # shrinking is a convenience: bounded, the deviation itself is already established
+            while changed and len(cur) > 2 and time.time() < t_dead:
                 changed = False
                 cands = [cur[:1] + cur[1:d] + cur[d + 1:] for d in range(1, len(cur) - 1)]
                 rr = deviates([" ".join(x) for x in cands])
@@ -1119,7 +1140,39 @@ def lists_probe(prop, tier, seed, rep, vals_line=None):
     return cov
 
 
-EXTRA_STEPS = {"C16": words_probe, "C15": policy_probe, "C03": layout_and_cycles_probe, "C13": layout_probe, "C11": lists_probe, "C02": lists_probe, "C09": words_probe, "C14": words_probe}
+def clonefrom_probe(prop, tier, seed, rep, vals_line=None):
+    """C04: `Clone::clone_from` on `Cc` keeps the counts exact in every outcome (model-independent probe on the crate)."""
+    ok, log = cargo_build(F_ALL)
+    if not ok:
+        raise RuntimeError("cargo build failed: " + log[-500:])
+    rc, out = sh([corr.harness_bin(F_ALL), "clonefrom"], timeout=600)
+    lines = [l for l in out.splitlines() if l.startswith("clonefrom ")]
+    bad = [l for l in lines if "PROBLEMS" in l]
+    if rc != 0 or "clonefrom done" not in out:
+        bad = bad or ["clonefrom probe crashed rc=%s after `%s`" % (rc, lines[-1] if lines else "-")]
+    if bad:
+        rep.violation("impl-vs-property", ["# " + x for x in bad], "Clone::clone_from on Cc does not behave as `*self = source.clone()`: %s" % bad[0], True,
+                      signature="clonefrom")
+    return {"clone_from_scenarios": len(lines), "extra_evaluations": len(lines)}
+
+
+def bigbuf_probe(prop, tier, seed, rep, vals_line=None):
+    """C01 (C02): collections over buffers of 4 … 2600 objects — far above the size of generated programs (model-independent)."""
+    ok, log = cargo_build(F_ALL)
+    if not ok:
+        raise RuntimeError("cargo build failed: " + log[-500:])
+    rc, out = sh([corr.harness_bin(F_ALL), "bigbuf"], timeout=900)
+    lines = [l for l in out.splitlines() if l.startswith("bigbuf ")]
+    bad = [l for l in lines if "PROBLEMS" in l]
+    if rc != 0 or "bigbuf done" not in out:
+        bad = bad or ["bigbuf probe crashed rc=%s after `%s`" % (rc, lines[-1] if lines else "-")]
+    if bad:
+        rep.violation("impl-vs-property", ["# " + x for x in bad], "a collection over a large buffer dropped a reachable object or leaked garbage: %s" % bad[0], True,
+                      signature="bigbuf")
+    return {"large_buffer_scenarios": len(lines) - 1, "extra_evaluations": len(lines)}
+
+
+EXTRA_STEPS = {"C01": bigbuf_probe, "C04": clonefrom_probe, "C16": words_probe, "C15": policy_probe, "C03": layout_and_cycles_probe, "C13": layout_probe, "C11": lists_probe, "C02": lists_probe, "C09": words_probe, "C14": words_probe}
 
 
 def simple_probe_check(prop, tier, seed, rep, runner):
